@@ -256,7 +256,18 @@ pub fn gen_bundle(rng: &mut Rng, p: &GenParams) -> ABundle {
         } else {
             rng.below(2_000_000)
         };
-        let ephemeral_child = !d.spends.is_empty() && rng.chance(1, 6);
+        // siblings: same parent and amount as an earlier coin, different puzzle (coins that differ
+        // in the puzzle hash only)
+        let sibling = !d.spends.is_empty() && rng.chance(1, 10);
+        let (puzzle_idx, puzzle_hash, amount) = if sibling {
+            let o = &d.spends[rng.usize(d.spends.len())];
+            let k = (o.puzzle_idx + 1 + rng.usize(NUM_PUZZLES - 1)) % NUM_PUZZLES;
+            (k, puzzle(k).tree_hash(), o.amount)
+        } else {
+            (puzzle_idx, puzzle_hash, amount)
+        };
+        let sibling_parent = if sibling { d.spends.iter().find(|o| o.amount == amount).map(|o| o.parent) } else { None };
+        let ephemeral_child = !sibling && !d.spends.is_empty() && rng.chance(1, 6);
         let parent = if ephemeral_child {
             let pi = rng.usize(d.spends.len());
             let pid = d.spends[pi].coin_id();
@@ -267,6 +278,9 @@ pub fn gen_bundle(rng: &mut Rng, p: &GenParams) -> ABundle {
             }
             tags.push("ephemeral".into());
             pid
+        } else if let Some(sp) = sibling_parent {
+            tags.push("siblings".into());
+            sp
         } else if p.parent_pool && rng.chance(3, 4) {
             pool_hash(rng, 0x70)
         } else {
